@@ -391,6 +391,20 @@ pub fn execute_from(trie: &mut Trie, src: &mut dyn Source, st: &mut Stats) {
                     Err(_) => shadow = None,
                 }
                 t.pidmap_f = HashMap::new();
+            } else if spawn_fresh && t.persistent && t.held.is_empty() && !t.awaiting.values().any(|k| k == "pubrel")
+                && {
+                    // ... and only where the export really is the whole session: every exchange in flight has its packet stored
+                    let stored: Vec<i64> = main.obs()["stored"].as_array().map(|a| a.iter().filter_map(|x| x["pid"].as_i64()).collect()).unwrap_or_default();
+                    t.awaiting.keys().all(|k| stored.contains(k))
+                }
+            {
+                // the reused object still holds a persistent session: the fresh object is GIVEN that session
+                let m = &main;
+                match catch(|| m.restored_copy(false)) {
+                    Ok(s) => shadow = Some(("resumed", s)),
+                    Err(_) => shadow = None,
+                }
+                t.pidmap_f = HashMap::new();
             } else if spawn_fresh {
                 let v = main.version();
                 shadow = Some(("fresh", main.fresh_like(&v)));
